@@ -159,7 +159,7 @@ def run_verus_once(path, extra, timeout):
         if not l.startswith('{'): continue
         try: d = json.loads(l)
         except Exception: continue
-        if d.get('level') == 'error' and d.get('spans') and (d.get('code') or re.search(r'not supported|unsupported|not yet support|not allowed|is not implemented|Could not automatically infer triggers|trigger does not cover|use of moved value|cannot find|mismatched types|expected|unresolved|borrow', d['message'])):
+        if d.get('level') == 'error' and d.get('spans') and (d.get('code') or re.search(r'not supported|unsupported|not yet support|must have a decreases clause|decreases checks in exec functions|not allowed|is not implemented|Could not automatically infer triggers|trigger does not cover|use of moved value|cannot find|mismatched types|expected|unresolved|borrow', d['message'])):
             # a rustc / Verus front-end error: the assembled text does not compile on this tree (unsupported construct or misplaced ghost code): never a property violation
             sp0 = d['spans'][0]
             hard.append('the assembled text is rejected before verification: %s (assembled line %d: %s)' % (d['message'], sp0['line_start'], (sp0['text'][0]['text'].strip()[:120] if sp0.get('text') else '')))
